@@ -43,6 +43,10 @@ def run(model: RepoModel, rep, tier: str):
                        "public view after every successful add/remove", min_instances=4)
     rep.rule("C19.R4", "PathTrie.add_path handles all four prefix relations: equal -> reject, proper prefix of stored -> reject, "
                        "stored proper prefix -> evict then insert, divergent -> insert", min_instances=4)
+    from ..generic import check_accumulators
+    check_accumulators(model, rep, "C19.R5", [FILE], C19_ADJUDICATED,
+                       "stored paths or trie nodes are missed, so the store no longer holds exactly the maximal paths", 2,
+                       classes={FILE: {"PathTrie", "PathManager", "CallPath", "CallSite"}})
 
     set_attr = "paths"
     # ------------------------------------------------------------------ R1
@@ -345,6 +349,13 @@ def _m(cls, func, pred, new=None):
 def _is_assign_attr(attr, val):
     return lambda st: isinstance(st, ast.Assign) and any(_attr_named(t, attr) for t in st.targets) and is_const(st.value, val)
 
+
+C19_ADJUDICATED = {
+    "common_structs.py::PathTrie.add_path::paths_to_remove::break under `elem not in node.children`":
+        "trie walk: the new path leaves the trie here, no stored path can be a prefix beyond this point",
+    "common_structs.py::PathTrie._mark_non_terminal::visited::return under `elem not in node.children`":
+        "the path is not stored: nothing to mark or unlink",
+}
 
 MUTANTS = [
     ("add-no-terminal", FILE, _m("PathTrie", "add_path", _is_assign_attr("is_terminal", True)), "PathTrie.add_path::self.paths.add"),
